@@ -5,7 +5,7 @@ from regpcommon import *
 
 META = dict(
     engine='Regp.tla',
-    technique='TLA+ spec Regp.tla: Classes(o) is an independent reading of doc/regp.txt (structure, header checksum, payload size, payload checksum iff declared, CRC-16/ARC evaluated bit-exactly); a corpus of frames of every type is corrupted by every single-bit flip, two-bit flips in the protected fields, every all-ones/inverting burst of length 2..16 at every bit offset, every truncation and small extensions, plus generated frames with every option-bit combination on both transports; the real receiver+processor runs on each and TLC validates verdict class, absence of any backend access, the meta message / error response sent, and - as a spec-level check - that every corruption of the guaranteed family classifies as not-ok',
+    technique='TLA+ spec Regp.tla: Classes(o) is an independent reading of doc/regp.txt (structure, header checksum, payload size, payload checksum iff declared, CRC-16/ARC evaluated bit-exactly); a corpus of frames of every type is corrupted by every single-bit flip, two-bit flips in the protected fields, every all-ones/inverting burst of length 2..16 at every bit offset, every truncation and small extensions, plus generated frames with every option-bit combination on both transports; the real receiver+processor runs on each and TLC validates verdict class, absence of any backend access, the meta message / error response sent, and - as spec-level checks - that every corruption of the guaranteed family classifies as not-ok (RegpMC.tla: exhaustive over a corpus; MustFail on every generated input)',
     level='For each corrupted frame the recorded run is validated by TLC: error class in the set of applicable classes (bad header encoding, bad header checksum, implausible payload size, bad payload checksum), no backend call, the corresponding meta message (header faults) or error response (payload faults of requests) on the wire and never an acknowledgement; TLC additionally checks on the specification that no corruption inside the family C07 names (1-/2-bit errors and bursts up to 16 bits in address, size, sequence, checksum or payload octets; single-bit errors of the first header word; truncation, extension) yields a frame the protocol document accepts. Arbitrary option-bit combinations and random octet strings on both transports compare the receiver-s verdict with the independent reading.',
     note='Trusted: TLC, harness/regp.c, my reading of doc/regp.txt. Errors are applied to the frame octets before SLIP encoding (channel errors that hit the framing octets are part of C09-s random streams). Quick tier samples the two-bit flips; thorough enumerates them for the short frames.',
 )
@@ -89,6 +89,11 @@ def run(tier):
     v = vf.Verdict('C07', tier)
     vf.build()
     quick = tier != 'thorough'
+    # E0: the CRC guarantee model-checked on the specification (every 1-bit error, every 2-bit error behind the first
+    # header word, every burst pattern up to MaxBurst bits, truncations/extensions of a corpus built by RegpOps)
+    r0 = vf.tlc_must_pass('RegpMC.tla', 'RegpMC.cfg' if quick else 'RegpMCt.cfg', 'regpmc', heap='16g')
+    v.add_tlc(r0)
+    v.notes['e0'] = dict(model='RegpMC.tla', cases=r0.distinct, cfg='RegpMC.cfg' if quick else 'RegpMCt.cfg')
     rnd = random.Random(vf.seed())
     ss = list(scripts(rnd, quick))
     vf.trace_flow(v, 'RegpTrace.tla', 'RegpTrace.cfg', 'regp', ss, 'cor')
